@@ -8,7 +8,7 @@ from ..cfg import NORMAL, Node
 from ..core import Ctx
 from ..flow import ALL, find_path, names_in
 from ..model import AnalysisError, FunctionInfo, dotted, norm_text
-from .common import effective_compare, edge_target, fold_str, kwarg, path_arg, reachable_from
+from .common import effective_compare, is_canonical_base_call, edge_target, fold_str, kwarg, path_arg, reachable_from
 
 EXPLANATION = (
     "Static analysis of GarbageCollector: (R1) the reachability walk covers every retained snapshot - loop "
@@ -725,7 +725,7 @@ def r4(ctx: Ctx, rid: str) -> None:
     for r in rel:
         base = r.ast.args[1] if isinstance(r.ast, ast.Call) and len(r.ast.args) > 1 else kwarg(r.ast, "start")
         org = sl.origins(base, r.id)
-        ok = any(isinstance(c, ast.Call) and (dotted(c.func) or "").endswith("_real_base_path") for c in org["calls"])
+        ok = any(is_canonical_base_call(ctx, lf, c) for c in org["calls"])
         ctx.ob(rid, lf, "relpath base is the canonical base", r, ok,
                "relative paths are computed against realpath(base), matching the walk root")
         walk = ctx.calls(lf, prim="os.walk") + ctx.calls(lf, prim="os.scandir")
@@ -752,7 +752,7 @@ def r4(ctx: Ctx, rid: str) -> None:
     rsl = ctx.slicer(rp)
     for c in ctx.calls(rp, prim="os.path.commonpath"):
         org = rsl.origins(c.ast, c.id)
-        ok = any(isinstance(x, ast.Call) and (dotted(x.func) or "").endswith("_real_base_path") for x in org["calls"])
+        ok = any(is_canonical_base_call(ctx, rp, x) for x in org["calls"])
         ctx.ob(rid, rp, "containment test uses the canonical base", c, ok, "commonpath([realpath(base), realpath(joined)])")
 
 
